@@ -43,7 +43,7 @@ type CompSpec struct {
 }
 
 var strPool = []string{"alpha", "Beta", "g a m m a", "", "d&d", "x<y", "naïve", "日本", "q\"uote", "it's", "  pad  ", "Zed"}
-var keyPool = []string{"a", "b", "c", "d", "e", "f", "g", "h", "k", "m", "n", "p", "title", "id", "Name", "zz"}
+var keyPool = []string{"a", "b", "c", "d", "e", "f", "g", "h", "k", "m", "n", "p", "title", "id", "Name", "zz", "name", "ID", "Id", "NAME", "A"}
 
 // GenData builds the data map and declares its variables in g.
 func (g *Gen) GenData() *Val {
@@ -113,6 +113,15 @@ func (g *Gen) genObjVal(depth int) (Val, []gkey) {
 		k := perm[i]
 		if v.T == "struct" {
 			k = strings.ToUpper(k[:1]) + k[1:]
+			dup := false
+			for _, kk := range v.K {
+				if kk == k {
+					dup = true
+				}
+			}
+			if dup {
+				continue
+			}
 		}
 		var e Val
 		typ := ""
